@@ -129,4 +129,14 @@ ENTRIES = {
             "past the last element occurring in those k results (loop-order agnostic laziness).",
             "All observation points are harness objects (no hook in krrood). Queries with Python bool constants are left to C01.",
             "DESIGN.md section 3 C10"),
+    "C11": ("exploration",
+            "exhaustive enumeration of match patterns x a domain containing every attribute valuation twice, direct-predicate oracle",
+            "All 811 patterns entity_matching(Box, dom)(tag=?, main=?, items=?) built from literals, literal lists, nested "
+            "matches one and two levels deep, subclass matches, match_any / match_all over every non-empty sub-list of a "
+            "3-item universe and the select twins are evaluated over 234 boxes (every (tag, main, items) valuation and a "
+            "value-equal twin of each) plus foreign elements; the returned identity set must equal the boxes satisfying a "
+            "direct Python predicate and selected parts must be the matched box's own attribute values.",
+            "A literal list on a collection attribute is outside the statement; multiplicities not compared. Open finding "
+            "C11-F1 (existential de-duplication by value when match_any is the only constraint).",
+            "DESIGN.md section 3 C11"),
 }
